@@ -4,12 +4,14 @@ Model of the two gcov readers of src/parser.rs.
 * `Gcov.Text.parse` — `parse_gcov` (gcov's intermediate text format, gcov ≤ 7): the file is cut into
   lines the way `BufRead::read_until(b'\n')` does, every line loses its trailing CR/LF bytes
   (`remove_newline`), is cut at the first ':' (`splitn(2, ':')`) and dispatched on its key.
-  `u32::from_str` / `u64::from_str` are modelled exactly (`parseUInt`). Every `unwrap` is an
-  explicit `panic` outcome.
+  `u32::from_str` / `u64::from_str` are modelled exactly (`parseUInt`). No `unwrap` is left in
+  the function (lines read without any `file:` record are `Err(InvalidRecord)`), so no program point
+  of the model yields `Out.panic`; the constructor stays for the driver protocol.
 * `Gcov.Json.toResults` — `parse_gcov_gz` after gzip and JSON *text* parsing (flate2 and serde_json
   are trusted, see DESIGN 4): the input is the JSON value tree that serde_json hands to the derived
   `Deserialize` impls of `GcovJson`/`GcovFile`/`GcovLine`/`GcovBr`/`GcovFunction` and to
-  `deserialize_counter`. `Json.fromReader none` is "flate2 or serde_json reported an error".
+  `deserialize_counter`. `Json.fromReader none` is "flate2 or serde_json reported an error"; every
+  such error, and every schema error, is `Err(InvalidData)` (`map_err(..)?`).
 
 Core Lean only (linked into the native driver `gm_c09`).
 -/
@@ -171,14 +173,15 @@ def stepLine : St → Bytes → St
 
 def runLines (s : St) (ls : List Bytes) : St := ls.foldl stepLine s
 
-/-- after the loop: the last section is reported iff it has a line; `cur_file.unwrap()` -/
+/-- after the loop: the last section is reported iff it has a line; lines without any `file:`
+record are `Err(InvalidRecord("lcount record without a file record"))` -/
 def finish : St → Out
   | .halt o => o
   | .run a =>
     if a.cur.lines.isEmpty then .ok a.results
     else match a.curFile with
       | some f => .ok (a.results ++ [(f, a.cur)])
-      | none => .panic "parse_gcov: cur_file.unwrap()"
+      | none => .err "InvalidRecord"
 
 /-- the loop from state `s` over the bytes still to be read -/
 def runBytes (s : St) (bs : Bytes) : St := runLines s (splitLines bs)
@@ -404,15 +407,16 @@ def convFile (f : FileJ) : Option (Bytes × Cov) :=
   else some (f.file, { lines := lines, branches := fileBranches f.lines,
                        functions := fileFunctions f.functions })
 
-/-- `parse_gcov_gz` from the value tree: `serde_json::from_reader(gz).unwrap()` then the loop -/
+/-- `parse_gcov_gz` from the value tree: `serde_json::from_reader(gz).map_err(InvalidData)?` then
+the loop -/
 def toResults (j : Json) : Out :=
   match decDoc j with
-  | none => .panic "parse_gcov_gz: serde_json::from_reader(..).unwrap()"
+  | none => .err "InvalidData"
   | some files => .ok (files.filterMap convFile)
 
 /-- the same with the trusted layer in front: `none` = flate2 or serde_json's text parser failed -/
 def fromReader : Option Json → Out
-  | none => .panic "parse_gcov_gz: serde_json::from_reader(..).unwrap()"
+  | none => .err "InvalidData"
   | some j => toResults j
 
 end Json
